@@ -26,6 +26,8 @@ SECTION_KEYS = ["StagePosition", "StageZ", "Magnification", "Intensity", "SpotSi
 TEXT_POOL = ["TS_01.mrc", "4096 4096", "12-Jan-21  14:01:35", "SerialEM", "K3-0123 gain.dm4", "a b  c", "x,y;z", "50%", "(2)",
              "it's", 'say "hi"', "[x]", "a]b", "{3}", "tomo#7", "path/to/file.tif", "X:\\frames\\raw\\a.tif", "1,5", "3.4.5", "0x1F",
              "--3", "1e", "e5", "1.5x", "K3", "+", "-", "..", "~x", "a|b", "q?", "<t>", "$1", "!x", "*", "a:b", "_under", "12@stack"]
+UNICODE_POOL = ["5 µm hole", "2.1 Å/px", "85.3°", "Béla Ångström", "café", "naïve", "Dvořák", "Müller", "αβγ", "−3 µm", "½ dose", "漢字",
+                "tilt ±60°", "Ø 2 µm", "n°7", "señal", "œuvre"]
 SPECIAL_POOL = ["nan", "NaN", "inf", "-inf", "True", "False", "None", "1e-05", "5E3", "+3", "+2.5", "1_000", " 7 ", "0x10", "1.2.3",
                 "-", "--1", "1-2", "٣"]  # the last one is a non-ASCII digit: only used when the class asks for it
 
@@ -71,6 +73,9 @@ def gen_value(rng, kind):
         return str(rng.choice(SPECIAL_POOL[:-1])).strip()
     if kind == "empty":
         return ""
+    if kind == "unicode":
+        t = str(rng.choice(UNICODE_POOL))
+        return t if rng.random() < 0.6 else "%s %s" % (gen_value(rng, "text").replace("=", ":"), t)
     if kind == "expfloat":
         r = rng.random()
         if r < 0.5:
@@ -370,7 +375,26 @@ def first_row_diff(got, exp):
 # ================================================================================================
 # one-value-per-line files
 # ================================================================================================
-NUM_STYLES = ["lf", "crlf", "lead_ws", "trail_ws", "tabs", "no_final_nl", "blank_end", "sci", "ints", "plus", "blank_inside"]
+NUM_STYLES = ["lf", "crlf", "lead_ws", "trail_ws", "tabs", "no_final_nl", "blank_end", "sci", "ints", "plus", "blank_inside", "odd_forms"]
+
+
+def odd_form(rng, t):
+    """another decimal spelling of the same number: .5  5.  1E1  +3  3e-06  007.50"""
+    v = float(t)
+    r = rng.random()
+    if r < 0.2 and t.startswith("0."):
+        return t[1:]
+    if r < 0.2 and t.startswith("-0."):
+        return "-" + t[2:]
+    if r < 0.4 and v == round(v):
+        return "%d." % round(v)
+    if r < 0.55:
+        return ("%E" % v) if rng.random() < 0.5 else ("%.6e" % v)
+    if r < 0.7 and v > 0:
+        return "+" + t
+    if r < 0.8 and v > 0:
+        return "00" + t
+    return t
 
 
 def render_numbers(rng, values, style, fmt=None):
@@ -385,6 +409,8 @@ def render_numbers(rng, values, style, fmt=None):
             t = fmt % v
         if style == "plus" and float(t) > 0 and rng.random() < 0.5:
             t = "+" + t
+        if style == "odd_forms":
+            t = odd_form(rng, t)
         toks.append(t)
     lines = []
     for t in toks:
@@ -447,14 +473,15 @@ def render_gctf(rng, U, V, ang, phase=None, style="plain"):
     fmt = str(rng.choice(["%.6f", "%.2f", "%.4f"]))
     cols = {}
     for lab in labels:
+        whole = style in ("ints", "all_ints")          # 'all_ints': every defocus/angle/phase token is a whole number (integer-typed columns)
         if lab == "rlnDefocusU":
-            cols[lab] = [("%d" % round(v)) if style == "ints" else fmt % v for v in U]
+            cols[lab] = [("%d" % round(v)) if whole else fmt % v for v in U]
         elif lab == "rlnDefocusV":
-            cols[lab] = [("%d" % round(v)) if style == "ints" else fmt % v for v in V]
+            cols[lab] = [("%d" % round(v)) if whole else fmt % v for v in V]
         elif lab == "rlnDefocusAngle":
-            cols[lab] = ["%.6f" % v for v in ang]
+            cols[lab] = [("%d" % round(v)) if style == "all_ints" else "%.6f" % v for v in ang]
         elif lab == "rlnPhaseShift":
-            cols[lab] = ["%.6f" % v for v in phase]
+            cols[lab] = [("%d" % round(v)) if style == "all_ints" else "%.6f" % v for v in phase]
         elif lab in ("rlnMicrographName", "rlnCtfImage"):
             cols[lab] = ["Micrographs/TS_07_%03d.%s" % (j, "mrc" if lab == "rlnMicrographName" else "ctf:mrc") for j in range(n)]
         else:
@@ -520,6 +547,8 @@ def render_ctffind4(rng, U, V, ang, phase, style="plain"):
     for j in range(n):
         vals = [j + 1.0, U[j], V[j], ang[j], phase[j]] + [float(rng.uniform(0.01, 0.3)), float(rng.uniform(3, 20)), 0.0][:ncol - 5]
         row = " ".join(fmt % v for v in vals)
+        if style == "whole":                           # every number written without a fractional part
+            row = " ".join("%d" % round(v) for v in vals)
         if style == "lead_ws":
             row = "  " + row
         if style == "tabs":
